@@ -10,6 +10,14 @@ Replies are captured at the transport byte for byte and
     the wire, the same reply whatever server and whatever neighbours (isolation);
   * replayed on Model/Processor.v by Judge/JProcessor.v (same definitions the theorems of Props/C14.v
     are about).
+
+Bounded outputs (second half of this file): the same processors over outputs that reject what does not fit —
+Process over frugal.NewTMemoryOutputBuffer(limit) for many small limits around the sizes involved (every
+transport call recorded with its fate), the real FNatsServer with its 1 MiB buffer (results, response headers,
+correlation ids and error texts of more than 1 MiB, a reply that fits to the byte), the HTTP handler with
+x-frugal-payload-limit.  Direct oracle: at most one reply, the request's op id, the normal reply iff it
+fits, otherwise the right exception kind under all response headers or under the op id only, nothing only
+when even that cannot fit.  Judge/JProcessorBounded.v replays Model/ProcessorBounded.v on every observation.
 """
 import collections
 import struct
@@ -510,9 +518,12 @@ class Stats:
         self.samples = []
         self.judge_cases = []
         self.judge_meta = []
+        self.bjudge_cases = []
+        self.bjudge_meta = []
+        self.bsamples = []
 
 
-def run_service(ctx, sv, nframes, st, nbatches):
+def run_service(ctx, sv, nframes, st, nbatches, bounded=None):
     rng = ctx.rng
     # a pool of argument encodings per method, written by the generated code itself
     reqs, meta = [], []
@@ -536,6 +547,13 @@ def run_service(ctx, sv, nframes, st, nbatches):
     wire_of = {m["go"]: m["wire"] for m in sv.methods}
     default_toks = [[wire_of[g], bytes.fromhex(x["rb"]), 1 if x["wok"] else 0] for g, x in sorted(defaults.items())]
     mtoks = sv.method_toks()
+
+    if bounded:
+        run_bounded(ctx, sv, st, pool, default_toks, mtoks, bounded["nframes"], bounded["nrand"])
+        for proto in ("compact", "json"):
+            run_bounded_proto(ctx, sv, st, proto, max(4, bounded["nframes"] // 2), max(3, bounded["nrand"] // 2))
+        if bounded.get("nats"):
+            run_bounded_nats(ctx, sv, st, pool, default_toks, mtoks, bounded.get("thorough"))
 
     for bi in range(nbatches):
         frames, outcomes = gen_batch(ctx, sv, nframes, pool, 1000 * (bi + 1))
@@ -763,6 +781,811 @@ def oracle_mode(ctx, sv, mode, frames, outcomes, r, calls_by_key, base_replies, 
 
 
 # ------------------------------------------------------------------------------------------------
+# bounded outputs
+
+NATS_MAX = 1048576
+BPLAN = {0: "error before output", 1: "oneway success", 2: "unknown method", 3: "SendError", 4: "SendReply",
+         5: "SendReply, result not writable"}
+
+
+def big_tok(b):
+    """judge token of a byte string: as it is, or (long ones) a list of parts with runs of one byte folded"""
+    if len(b) < 2048:
+        return b
+    parts, i, n, raw = [], 0, len(b), bytearray()
+    while i < n:
+        j = i + 1
+        while j < n and b[j] == b[i]:
+            j += 1
+        if j - i >= 512:
+            if raw:
+                parts.append(bytes(raw))
+                raw = bytearray()
+            parts.append([j - i, bytes(b[i:i + 1])])
+        else:
+            raw += b[i:j]
+        i = j
+    if raw:
+        parts.append(bytes(raw))
+    return parts
+
+
+def spec_extra(spec):
+    """the response headers an outcome adds, as (key, value) byte pairs in the order the handler adds them"""
+    out = [(bytes.fromhex(a), bytes.fromhex(b)) for a, b in spec.get("extra", [])]
+    for r in spec.get("extra_rep", []):
+        out.append((bytes.fromhex(r["k"]), bytes.fromhex(r["pat"]) * r["n"]))
+    return out
+
+
+def spec_msg(spec):
+    m = bytes.fromhex(spec.get("msg", ""))
+    if spec.get("msg_rep"):
+        m += bytes.fromhex(spec["msg_rep"]["pat"]) * spec["msg_rep"]["n"]
+    return m
+
+
+def outcome_toks_b(sv, outcomes, calls_by_key):
+    wire_of = {m["go"]: m["wire"] for m in sv.methods}
+    out = []
+    for key, spec in sorted(outcomes.items()):
+        c = calls_by_key.get(key)
+        k = spec["k"]
+        if c is not None and c.get("default"):
+            continue
+        extra = [[big_tok(a), big_tok(b)] for a, b in spec_extra(spec)]
+        if k in ("ret", "declared"):
+            if c is None:
+                continue
+            out.append([key.encode(), wire_of[spec["method"]], 0, big_tok(bytes.fromhex(c.get("rb", ""))),
+                        1 if c.get("wok") else 0, 0, b"", extra])
+        elif k == "appexc":
+            out.append([key.encode(), wire_of[spec["method"]], 1, b"", 0, spec["type"], big_tok(spec_msg(spec)), extra])
+        else:
+            out.append([key.encode(), wire_of[spec["method"]], 2, b"", 0, 0, big_tok(spec_msg(spec)), extra])
+    return out
+
+
+def attempts_of(trace):
+    """the recorded transport calls cut into attempts: a new one starts after a rejected write or a Reset"""
+    out, cur = [], []
+    for e in trace:
+        if e["k"] == 2:
+            if cur:
+                out.append(cur)
+            cur = []
+            continue
+        if e["k"] == 1:
+            continue
+        cur.append(e)
+        if not e["ok"]:
+            out.append(cur)
+            cur = []
+    if cur:
+        out.append(cur)
+    return out
+
+
+def etext_of_trace(trace):
+    """the text of the error SendError / trapError was given, read off the writes of the EXCEPTION attempts:
+    the text itself if one of them got as far as writing it, else a filler of the announced length, else None"""
+    filler = None
+    for a in attempts_of(trace):
+        w = [bytes.fromhex(e.get("b", "")) for e in a]
+        if len(w) > 5 and w[1] == b"\x80\x01\x00\x03" and w[5] == b"\x0b":
+            if len(w) > 8:
+                return w[8]
+            if len(w) > 7 and len(w[7]) == 4 and filler is None:
+                filler = b"?" * struct.unpack(">i", w[7])[0]
+    return filler
+
+
+def chunk_sizes(trace):
+    """the sizes of the writes result.Write issues: the first attempt of an unbounded run after the header
+    block and the four writes of WriteMessageBegin, if it is a REPLY"""
+    at = attempts_of(trace)
+    if not at:
+        return []
+    w = [bytes.fromhex(e.get("b", "")) for e in at[0]]
+    if len(w) >= 5 and w[1] == b"\x80\x01\x00\x02":
+        return [len(x) for x in w[5:]]
+    return []
+
+
+def hdr_block_size(h):
+    return 5 + sum(8 + len(k) + len(v) for k, v in h.items())
+
+
+def exc_struct_size(text):
+    return (7 + len(text) if text else 0) + 8
+
+
+# ---- the three protocols, as far as the bounded oracle needs them (envelope and TApplicationException) ----
+
+def _varint(n):
+    out = bytearray()
+    while True:
+        b = n & 0x7f
+        n >>= 7
+        if n:
+            out.append(b | 0x80)
+        else:
+            out.append(b)
+            return bytes(out)
+
+
+def _read_varint(b, i):
+    n, sh = 0, 0
+    while i < len(b):
+        c = b[i]
+        i += 1
+        n |= (c & 0x7f) << sh
+        sh += 7
+        if not c & 0x80:
+            return n, i
+    return None, i
+
+
+class BinaryCodec:
+    name = "binary"
+
+    def envelope(self, name, args):
+        return envelope(name, 1, 0) + args
+
+    def parse_reply(self, frame):
+        return parse_reply(frame)
+
+    def parse_exc(self, body):
+        return parse_app_exception(body)
+
+    def min_error_size(self, opid, name, text, kind):
+        return 4 + hdr_block_size({b"_opid": opid}) + 12 + len(name) + exc_struct_size(text)
+
+    def too_large_text(self, lim, base_len):
+        return None           # the generated Write prefixes the text according to where it stopped
+
+
+class CompactCodec(BinaryCodec):
+    name = "compact"
+
+    def envelope(self, name, args):
+        return bytes([0x82, (1 << 5) | 1]) + _varint(0) + _varint(len(name)) + name + args
+
+    def parse_reply(self, frame):
+        p = hc.ref_parse(frame)
+        if p is None:
+            return "header block not decodable"
+        pairs, b = p
+        if len(dict(pairs)) != len(pairs):
+            return "duplicate header in the reply"
+        if len(b) < 4 or b[0] != 0x82 or b[1] & 0x1f != 1:
+            return "message envelope not decodable"
+        seq, i = _read_varint(b, 2)
+        n, i = _read_varint(b, i) if seq is not None else (None, i)
+        if n is None or i + n > len(b):
+            return "message envelope not decodable"
+        return {"headers": dict(pairs), "name": b[i:i + n], "type": (b[1] >> 5) & 7, "seq": seq, "body": b[i + n:]}
+
+    def parse_exc(self, body):
+        i, msg = 0, b""
+        first = 0x25
+        if body[:1] == b"\x18":
+            n, i = _read_varint(body, 1)
+            if n is None or n == 0 or i + n > len(body):
+                return None
+            msg = body[i:i + n]
+            i += n
+            first = 0x15
+        if body[i:i + 1] != bytes([first]):
+            return None
+        z, j = _read_varint(body, i + 1)
+        if z is None or body[j:] != b"\x00":
+            return None
+        return msg, (z >> 1) ^ -(z & 1)
+
+    def min_error_size(self, opid, name, text, kind):
+        z = (kind << 1) ^ (kind >> 31)
+        return (4 + hdr_block_size({b"_opid": opid}) + 3 + len(_varint(len(name))) + len(name) +
+                ((1 + len(_varint(len(text))) + len(text)) if text else 0) + 1 + len(_varint(z & 0xffffffff)) + 1)
+
+
+class JSONCodec(BinaryCodec):
+    name = "json"
+    RE_MSG = None
+
+    def envelope(self, name, args):
+        return b'[1,"' + name + b'",1,0,' + args + b']'
+
+    def parse_reply(self, frame):
+        import re
+        p = hc.ref_parse(frame)
+        if p is None:
+            return "header block not decodable"
+        pairs, b = p
+        if len(dict(pairs)) != len(pairs):
+            return "duplicate header in the reply"
+        m = re.match(rb'^\[1,"((?:[^"\\]|\\.)*)",(\d+),(-?\d+),(.*)\]$', b, re.S)
+        if m is None:
+            return "message envelope not decodable"
+        return {"headers": dict(pairs), "name": m.group(1), "type": int(m.group(2)), "seq": int(m.group(3)), "body": m.group(4)}
+
+    def parse_exc(self, body):
+        import re
+        import json as _json
+        m = re.match(rb'^\{(?:"1":\{"str":"((?:[^"\\]|\\.)*)"\},)?"2":\{"i32":(-?\d+)\}\}$', body, re.S)
+        if m is None:
+            return None
+        msg = b""
+        if m.group(1) is not None:
+            try:
+                msg = _json.loads('"' + m.group(1).decode("latin1") + '"').encode("latin1", "replace")
+            except Exception:
+                return None
+        return msg, int(m.group(2))
+
+    def min_error_size(self, opid, name, text, kind):
+        import json as _json
+        t = _json.dumps(text.decode("latin1")).encode()
+        body = (b'{"1":{"str":' + t + b'},' if text else b'{') + b'"2":{"i32":%d}}' % kind
+        return 4 + hdr_block_size({b"_opid": opid}) + len(b'[1,"' + name + b'",3,0,' + body + b']')
+
+    def too_large_text(self, lim, base_len):
+        # everything is buffered (bufio, 4096 bytes) and reaches the transport in Flush: the text has no prefix
+        return (b"Buffer size reached (%d)" % lim) if base_len < 3500 else None
+
+
+BINARY = BinaryCodec()
+CODECS = {"binary": BINARY, "compact": CompactCodec(), "json": JSONCodec()}
+
+
+def bounded_oracle(ctx, sv, st, fr, lim, o, base, call, outcomes, sibling_texts, mode="bounded", codec=BINARY):
+    """The property over a bounded output on ONE observation, no model.
+    base: the reply the same request gets over an unbounded output (bytes, b"" = none)."""
+    def bad(what):
+        rep = replay_of(sv, [fr], outcomes, mode, 0, o)
+        rep["limit"] = lim
+        ctx.violation("C14 (%s, limit %d): %s" % (mode, lim, what), rep,
+                      signature={"mode": mode, "kind": fr["kind"]})
+        return False
+
+    w = bytes.fromhex(o.get("written", ""))
+    tr = o.get("trace", [])
+    nfl = sum(1 for e in tr if e["k"] == 1)
+    if nfl > 1:
+        return bad("%d Flush calls for one request" % nfl)
+    if (nfl == 1) != bool(w) or bool(w) != bool(o.get("hasdata")):
+        return bad("Flush calls %d, HasWriteData %s, %d bytes in the buffer" % (nfl, o.get("hasdata"), len(w)))
+    if w and tr and tr[-1]["k"] != 1:
+        return bad("something was written after the Flush")
+    if "[" in o.get("errtext", ""):
+        return bad("buffer malformed: " + o["errtext"])
+    rq = fr["rq"] if "rq" in fr else parse_request(fr["frame"])
+    if rq is None:
+        if w or not o["err"]:
+            return bad("a frame without decodable headers / envelope: %d bytes left, error class %s" % (len(w), o["err"]))
+        return True
+    fits_all = lim <= 0 or len(base) + 4 <= lim
+    unwritable = call is not None and not call.get("wok", True) and \
+        (call.get("default") or (call.get("spec") or {}).get("k") in ("ret", "declared"))
+    if fits_all and not unwritable:
+        if (canon(w) != canon(base)) if (w and base) else (w != base):
+            return bad("the reply fits (%d + 4 bytes) but the output differs from the unbounded one" % len(base))
+        if o["err"]:
+            return bad("Process returned an error although its answer fits")
+        return True
+    known = [m for m in sv.methods if m["wire"] == rq["name"]]
+    pb = codec.parse_reply(base) if base else None
+    if not base:
+        # a oneway success writes nothing whatever the limit
+        if w or o["err"]:
+            return bad("a request that gets no answer over an unbounded output left %d bytes" % len(w))
+        return True
+    if isinstance(pb, str):
+        return True       # the unbounded oracle reports that
+    btext, bkind = None, None
+    if pb["type"] == 3:
+        ex = codec.parse_exc(pb["body"])
+        if ex is not None:
+            btext, bkind = ex
+    small_hdr = {b"_opid": rq["opid"]}
+    if not w:
+        if o["err"] and known:
+            return bad("Process returned an error for a registered method")
+        if not o["err"] and not known:
+            return bad("nothing left for an unknown method but Process returned nil")
+        # nothing may be left only if even the op-id-only exception does not fit; its size follows from the
+        # error text, which the recorded writes show as soon as an attempt got that far
+        if btext is not None and not unwritable:
+            text, kind = btext, bkind
+        elif codec is BINARY:
+            text, kind = etext_of_trace(tr), 100
+        else:
+            text, kind = codec.too_large_text(lim, len(base)), 100
+            if unwritable:
+                text = None
+        if text is not None:
+            need = codec.min_error_size(rq["opid"], rq["name"], text, kind)
+            if need <= lim:
+                return bad("nothing was left although the exception under the op id alone takes %d bytes" % need)
+        elif codec is BINARY and 4 + hdr_block_size(small_hdr) + 12 + len(rq["name"]) + 7 <= lim:
+            return bad("nothing was left and no attempt got as far as the exception's text although %d bytes fit" %
+                       (4 + hdr_block_size(small_hdr) + 12 + len(rq["name"]) + 7))
+        elif codec is not BINARY:
+            st.c["bounded/%s_empty_not_judged_by_oracle" % codec.name] += 1
+        st.c["bounded/%s_oracle_nothing_fits" % codec.name] += 1
+        return True
+    if o["err"]:
+        return bad("Process returned an error and left %d bytes" % len(w))
+    r = codec.parse_reply(w)
+    if isinstance(r, str):
+        return bad(r)
+    if r["headers"].get(b"_opid") != rq["opid"]:
+        return bad("reply carries op id %r, the request's is %r" % (r["headers"].get(b"_opid"), rq["opid"]))
+    if r["name"] != rq["name"] or r["seq"] != 0:
+        return bad("reply names method %r seq %d" % (r["name"][:40], r["seq"]))
+    if r["type"] != 3:
+        return bad("message type %d although the normal reply does not fit" % r["type"])
+    ex = codec.parse_exc(r["body"])
+    if ex is None:
+        return bad("EXCEPTION body is not a well-formed TApplicationException")
+    if unwritable:
+        want_kinds = (6, 100)
+    elif pb["type"] == 2:
+        want_kinds = (100,)
+    else:
+        want_kinds = (bkind,)
+    if ex[1] not in want_kinds:
+        return bad("exception type %d, expected %s" % (ex[1], "/".join(map(str, want_kinds))))
+    if pb["type"] == 3 and not unwritable and ex[0] != btext:
+        return bad("exception message %r differs from the unbounded one" % ex[0][:60])
+    sibling_texts.append(ex[0])
+    if r["headers"] == pb["headers"]:
+        st.c["bounded/%s_oracle_full_headers" % codec.name] += 1
+    elif r["headers"] == small_hdr:
+        alt = len(w) - hdr_block_size(small_hdr) + hdr_block_size(pb["headers"])
+        if alt + 4 <= lim:
+            return bad("answered under the op id alone although the exception with all response headers takes %d bytes" % (alt + 4))
+        st.c["bounded/%s_oracle_opid_only" % codec.name] += 1
+    else:
+        return bad("reply headers %r: neither all response headers nor the op id alone" % sorted(r["headers"])[:6])
+    return True
+
+
+def own_otoks(otoks, fr):
+    """the outcome entries a frame can reach: the one under its own x-c14 key"""
+    rq = parse_request(fr["frame"])
+    if rq is None or rq["key"] is None:
+        return []
+    return [t for t in otoks if t[0] == rq["key"]]
+
+
+def bounded_case(mode, lim, mtoks, otoks, default_toks, frame, etext, sizes, oerr, out, trace):
+    return [mode, lim, mtoks, otoks, default_toks, big_tok(frame), big_tok(etext), sizes, oerr, big_tok(out),
+            [[e["k"], bytes.fromhex(e.get("b", "")), 1 if e["ok"] else 0] for e in trace]]
+
+
+def string_frames(rng, sv, pool, outcomes, k, tagbase, marshal, env):
+    """up to k requests to methods that return a string, answered with a long one (the harness pads it) under
+    response headers of assorted lengths: replies that overflow where the exception with all headers fits"""
+    ms = [m for m in sv.methods if not m["oneway"] and m["m"]["ret"] is not None and
+          L.resolve(sv.prog, m["m"]["ret"])[0] == "string" and pool.get(m["go"])]
+    out = []
+    for j in range(k if ms else 0):
+        m = rng.choice(ms)
+        opid = str(tagbase + j).encode()
+        key = "s%d" % (tagbase + j)
+        extra = [[("x-s%d" % t).encode().hex(), bytes(rng.choice(b"abcdefgh") for _ in range(rng.choice([0, 3, 40, 200]))).hex()]
+                 for t in range(rng.randrange(0, 3))]
+        outcomes[key] = {"k": "ret", "method": m["go"], "result": m["result_key"], "extra": extra,
+                         "value": {"0": L.to_wire(sv.prog, ["string"], "abc")}, "pad": rng.choice([120, 260, 700])}
+        hs = [(b"_opid", opid), (KEY, key.encode())] + ([(b"_cid", b"cid-%d" % j)] if rng.random() < 0.7 else [])
+        args = pool[m["go"]][0]
+        out.append({"kind": "ok", "method": m["wire"].decode(), "opid": opid, "outcome": "ret",
+                    "frame": marshal(hs) + env(m["wire"], args),
+                    "rq": {"opid": opid, "cid": b"", "key": key.encode(), "name": m["wire"], "rest": args}})
+    return out
+
+
+def run_bounded(ctx, sv, st, pool, default_toks, mtoks, nframes, nrand):
+    """Process over NewTMemoryOutputBuffer(limit) for limits around every size involved, and the HTTP handler
+    with a payload limit."""
+    rng = ctx.rng
+    frames, outcomes = gen_batch(ctx, sv, nframes, pool, 700000 + 1000 * st.c["bounded/batches"])
+    st.c["bounded/batches"] += 1
+    # more and longer response headers than the unbounded batches have
+    for spec in outcomes.values():
+        if rng.random() < 0.7:
+            ex = spec.setdefault("extra", [])
+            for _ in range(rng.randrange(1, 4)):
+                ex.append([("x-b%d" % rng.randrange(6)).encode().hex(),
+                           bytes(rng.choice(b"abcdefgh") for _ in range(rng.choice([0, 1, 7, 30, 120, 300]))).hex()])
+        # results larger than an error reply (string returns only: the harness pads those), so that the reply
+        # overflows where the exception with all response headers still fits
+        if spec.get("k") == "ret" and rng.random() < 0.5:
+            spec["pad"] = rng.choice([150, 300, 700])
+    frames += string_frames(rng, sv, pool, outcomes, 2, 790000 + 100 * st.c["bounded/batches"], hc.ref_marshal,
+                            lambda name, args: envelope(name, 1, 0) + args)
+    n = len(frames)
+    r0 = run_mode_b(sv, "bounded", frames, outcomes, [0] * n)
+    if r0.get("code") != 0:
+        ctx.violation("C14 (bounded): the unbounded run crashed or hung: %s" % (r0.get("panic") or r0.get("err")),
+                      replay_of(sv, frames, outcomes, "bounded", None, r0), signature=None)
+        return
+    calls_by_key = {}
+    for c in r0["calls"]:
+        calls_by_key.setdefault(c["key"], c)
+    for key, c in calls_by_key.items():
+        c["spec"] = outcomes.get(key)
+    otoks = outcome_toks_b(sv, outcomes, calls_by_key)
+    base = [bytes.fromhex(r0["obs"][i].get("written", "")) for i in range(n)]
+    sizes = [chunk_sizes(r0["obs"][i].get("trace", [])) for i in range(n)]
+
+    def call_of(i):
+        rq = parse_request(frames[i]["frame"])
+        if rq is None or rq["key"] is None:
+            return None
+        return calls_by_key.get(rq["key"].decode("latin1"))
+
+    def run_pass(plan):
+        """plan: list of (frame index, limit)"""
+        if not plan:
+            return []
+        r = run_mode_b(sv, "bounded", [frames[i] for i, _ in plan], outcomes, [l for _, l in plan])
+        if r.get("code") != 0:
+            ctx.violation("C14 (bounded): the run crashed or hung: %s" % (r.get("panic") or r.get("err")),
+                          replay_of(sv, [frames[i] for i, _ in plan], outcomes, "bounded", None, r), signature=None)
+            return []
+        return list(zip(plan, r["obs"]))
+
+    plan1 = [(i, 0) for i in range(n)]
+    for i in range(n):
+        N = len(base[i]) + 4
+        lims = {1, 3, 4, 5, N - 1, N, N + 1}
+        for _ in range(nrand):
+            lims.add(rng.randrange(5, N + 4))
+        plan1 += [(i, l) for l in sorted(lims) if l > 0]
+    obs1 = run_pass(plan1)
+    # second pass: one byte around every size that occurred
+    seen = {(i, l) for i, l in plan1}
+    plan2 = []
+    for (i, l), o in obs1:
+        E = len(bytes.fromhex(o.get("written", "")))
+        if E:
+            for l2 in (E + 3, E + 4, E + 5):
+                if (i, l2) not in seen:
+                    seen.add((i, l2))
+                    plan2.append((i, l2))
+    obs2 = run_pass(plan2)
+    texts = collections.defaultdict(list)
+    allobs = obs1 + obs2
+    # oracle: first the observations that left something (they teach the error texts), then the empty ones
+    allobs.sort(key=lambda x: (x[0][0], 0 if x[1].get("written") else 1))
+    for (i, l), o in allobs:
+        ok = bounded_oracle(ctx, sv, st, frames[i], l, o, base[i], call_of(i), outcomes, texts[i])
+        st.evals += 1
+        w = bytes.fromhex(o.get("written", ""))
+        nrej = sum(1 for e in o.get("trace", []) if e["k"] == 0 and not e["ok"])
+        st.distinct.add((sv.key, frames[i]["kind"], frames[i].get("outcome"), frames[i]["method"], "bounded", nrej, bool(w)))
+        st.bjudge_cases.append(bounded_case(0, l, mtoks, own_otoks(otoks, frames[i]), default_toks, frames[i]["frame"],
+                                            etext_of_trace(o.get("trace", [])) or b"?", sizes[i], 1 if o["err"] else 0, w,
+                                            o.get("trace", [])))
+        st.bjudge_meta.append((sv, "bounded", frames[i], outcomes, l, o))
+    st.c["bounded/observations"] += len(allobs)
+    if len(st.bsamples) < 3 and allobs:
+        (i, l), o = allobs[len(allobs) // 2]
+        st.bsamples.append({"service": sv.key, "kind": frames[i]["kind"], "limit": l, "unbounded_reply_bytes": len(base[i]),
+                            "left": o.get("written", "")[:120], "rejected_writes":
+                            sum(1 for e in o.get("trace", []) if e["k"] == 0 and not e["ok"])})
+
+    # ---- HTTP handler with a payload limit (the payload sizes come from an HTTP run without limit: the text
+    # of a PROTOCOL_ERROR depends on the input transport)
+    rh0 = run_mode_b(sv, "http", frames, outcomes, [0] * n)
+    if rh0.get("code") != 0:
+        ctx.violation("C14 (http): the run crashed or hung: %s" % (rh0.get("panic") or rh0.get("err")),
+                      replay_of(sv, frames, outcomes, "http", None, rh0), signature=None)
+        return
+    baseh = [bytes.fromhex(rh0["obs"][i].get("raw", ""))[4:] for i in range(n)]
+    hplan = []
+    for i in range(n):
+        if parse_request(frames[i]["frame"]) is None:
+            continue
+        P = len(baseh[i])
+        for l in {1, P - 1, P, P + 1, rng.randrange(1, P + 2)}:
+            if l > 0:
+                hplan.append((i, l))
+    rng.shuffle(hplan)
+    hplan = hplan[:3 * n]
+    if hplan:
+        r = run_mode_b(sv, "http", [frames[i] for i, _ in hplan], outcomes, [l for _, l in hplan])
+        if r.get("code") != 0:
+            ctx.violation("C14 (http, payload limit): the run crashed or hung: %s" % (r.get("panic") or r.get("err")),
+                          replay_of(sv, [frames[i] for i, _ in hplan], outcomes, "http", None, r), signature=None)
+        else:
+            for (i, l), o in zip(hplan, r["obs"]):
+                st.evals += 1
+                P = len(baseh[i])
+                want = 413 if l < P else 200
+                got = bytes.fromhex(o.get("raw", ""))[4:]
+                what = None
+                if o.get("status") != want:
+                    what = "status %s for a payload of %d bytes under x-frugal-payload-limit %d" % (o.get("status"), P, l)
+                elif want == 200 and (canon(got) != canon(baseh[i]) if (got and baseh[i]) else got != baseh[i]):
+                    what = "the body differs from the reply the same request gets from Process"
+                if what:
+                    rep = replay_of(sv, [frames[i]], outcomes, "http", 0, o)
+                    rep["limit"] = l
+                    ctx.violation("C14 (http, payload limit %d): %s" % (l, what), rep,
+                                  signature={"mode": "http-limit", "kind": frames[i]["kind"]})
+                st.c["bounded/http_%d" % (o.get("status") or 0)] += 1
+                st.distinct.add((sv.key, frames[i]["kind"], frames[i].get("outcome"), frames[i]["method"], "http-limit", o.get("status")))
+                et = etext_of([baseh[i]]) if baseh[i] else b""
+                st.bjudge_cases.append(bounded_case(2, l, mtoks, own_otoks(otoks, frames[i]), default_toks, frames[i]["frame"], et, [],
+                                                    {200: 0, 500: 1, 413: 2}.get(o.get("status"), 9), got, []))
+                st.bjudge_meta.append((sv, "http", frames[i], outcomes, l, o))
+
+
+def ascii_text(rng, lo=1, hi=30):
+    return "".join(rng.choice("abcdefghij klmnop:_-XYZ09") for _ in range(rng.randrange(lo, hi))).encode()
+
+
+def run_bounded_proto(ctx, sv, st, proto, nframes, nrand):
+    """The same bounded-output runs under the compact and JSON protocols (direct oracle only: the Coq model
+    is of the binary protocol).  JSON buffers the whole message in a bufio.Writer, which keeps a failed Flush
+    as a sticky error: resetProtocol in trapError / sendError exists for it."""
+    rng = ctx.rng
+    codec = CODECS[proto]
+    reqs, meta = [], []
+    for m in sv.methods:
+        for _ in range(2):
+            v = L.gen_struct_value(rng, sv.prog, m["args_sdef"])
+            reqs.append({"op": "write", "type": m["args_key"], "proto": proto,
+                         "value": L.struct_to_wire(sv.prog, m["args_sdef"], v)})
+            meta.append(m["go"])
+    pool = collections.defaultdict(list)
+    for g, r in zip(meta, sv.lb.run(reqs)):
+        if r.get("code") == 0:
+            pool[g].append(bytes.fromhex(r["out"]))
+    frames, outcomes = [], {}
+    tagbase = 900000 + 1000 * st.c["bounded/batches_" + proto]
+    st.c["bounded/batches_" + proto] += 1
+    for i in range(nframes):
+        m = rng.choice(sv.methods)
+        if not pool[m["go"]]:
+            continue
+        kind = rng.choice(["ok"] * 7 + ["unknown", "badargs"])
+        opid = str(tagbase + i).encode()
+        key = ("k%d" % (tagbase + i)).encode()
+        hdrs = [(b"_opid", opid), (KEY, key)]
+        cid = b""
+        if rng.random() < 0.7:
+            cid = ascii_text(rng, 1, 60)
+            hdrs.append((b"_cid", cid))
+        rng.shuffle(hdrs)
+        name, args = m["wire"], rng.choice(pool[m["go"]])
+        desc = {"kind": kind, "method": name.decode(), "opid": opid}
+        if kind == "unknown":
+            name = b"nosuch" + name
+        else:
+            spec, ok = gen_outcome(rng, sv, m)
+            if "msg" in spec:
+                spec["msg"] = ascii_text(rng).hex()
+            spec["extra"] = []
+            if rng.random() < 0.7:
+                for _ in range(rng.randrange(1, 4)):
+                    spec["extra"].append([("x-b%d" % rng.randrange(6)).encode().hex(),
+                                          ascii_text(rng, 1, rng.choice([2, 8, 31, 121, 301])).hex()])
+            if spec.get("k") == "ret" and rng.random() < 0.5:
+                spec["pad"] = rng.choice([150, 300, 700])
+            outcomes[key.decode()] = spec
+            desc["outcome"] = ok
+        if kind == "badargs":
+            args = args[:rng.randrange(0, max(1, len(args) - 1))]
+        desc["frame"] = hc.ref_marshal(hdrs) + codec.envelope(name, args)
+        desc["rq"] = {"opid": opid, "cid": cid, "key": key if kind != "unknown" else None, "name": name, "rest": args}
+        frames.append(desc)
+    frames += string_frames(rng, sv, pool, outcomes, 2, tagbase + 500, hc.ref_marshal, codec.envelope)
+    n = len(frames)
+    if not n:
+        return
+    r0 = run_mode_b(sv, "bounded", frames, outcomes, [0] * n, proto=proto)
+    if r0.get("code") != 0:
+        ctx.violation("C14 (bounded, %s): the unbounded run crashed or hung: %s" % (proto, r0.get("panic") or r0.get("err")),
+                      replay_of(sv, frames, outcomes, "bounded-" + proto, None, r0), signature=None)
+        return
+    calls_by_key = {}
+    for c in r0["calls"]:
+        calls_by_key.setdefault(c["key"], c)
+    for key, c in calls_by_key.items():
+        c["spec"] = outcomes.get(key)
+    base = [bytes.fromhex(r0["obs"][i].get("written", "")) for i in range(n)]
+    for i in range(n):
+        # the unbounded answers themselves: one well-formed message with the request's op id
+        if base[i]:
+            pr = codec.parse_reply(base[i])
+            if isinstance(pr, str) or pr["headers"].get(b"_opid") != frames[i]["opid"]:
+                rep = replay_of(sv, [frames[i]], outcomes, "bounded-" + proto, 0, r0["obs"][i])
+                ctx.violation("C14 (bounded, %s, no limit): %s" % (proto, pr if isinstance(pr, str) else "wrong op id"), rep,
+                              signature={"mode": "bounded-" + proto, "kind": frames[i]["kind"]})
+
+    def run_pass(plan):
+        if not plan:
+            return []
+        r = run_mode_b(sv, "bounded", [frames[i] for i, _ in plan], outcomes, [l for _, l in plan], proto=proto)
+        if r.get("code") != 0:
+            ctx.violation("C14 (bounded, %s): the run crashed or hung: %s" % (proto, r.get("panic") or r.get("err")),
+                          replay_of(sv, [frames[i] for i, _ in plan], outcomes, "bounded-" + proto, None, r), signature=None)
+            return []
+        return list(zip(plan, r["obs"]))
+
+    plan1 = []
+    for i in range(n):
+        N = len(base[i]) + 4
+        lims = {1, 4, 5, N - 1, N, N + 1}
+        for _ in range(nrand):
+            lims.add(rng.randrange(5, N + 4))
+        plan1 += [(i, l) for l in sorted(lims) if l > 0]
+    obs1 = run_pass(plan1)
+    seen = set(plan1)
+    plan2 = []
+    for (i, l), o in obs1:
+        E = len(bytes.fromhex(o.get("written", "")))
+        if E:
+            for l2 in (E + 3, E + 4, E + 5):
+                if (i, l2) not in seen:
+                    seen.add((i, l2))
+                    plan2.append((i, l2))
+    allobs = obs1 + run_pass(plan2)
+    for (i, l), o in allobs:
+        rq = frames[i]["rq"]
+        call = calls_by_key.get(rq["key"].decode()) if rq["key"] else None
+        bounded_oracle(ctx, sv, st, frames[i], l, o, base[i], call, outcomes, [], mode="bounded-" + proto, codec=codec)
+        st.evals += 1
+        w = o.get("written", "")
+        st.distinct.add((sv.key, frames[i]["kind"], frames[i].get("outcome"), frames[i]["method"], "bounded-" + proto,
+                         bool(w), len(w) < len(base[i].hex())))
+    st.c["bounded/observations_" + proto] += len(allobs)
+
+
+
+def run_mode_b(sv, mode, frames, outcomes, limits, proto="binary"):
+    rq = {"op": "c14", "service": sv.key, "proto": proto, "mode": mode, "outcomes": outcomes,
+          "results": sv.results_map(), "frames": [f["frame"].hex() for f in frames], "limits": limits,
+          "workers": 1, "quiet_ms": 150}
+    return sv.lb.run([rq], timeout=900)[0]
+
+
+def run_bounded_nats(ctx, sv, st, pool, default_toks, mtoks, thorough):
+    """The real FNatsServer (1 MiB output buffer) with answers that do not fit: by the result, by the response
+    headers alone, by the correlation id alone, by the error text; and a reply that fits to the byte.
+    Only for the fixed program (methods ping / name)."""
+    rng = ctx.rng
+    by_wire = {m["wire"]: m for m in sv.methods}
+    if b"ping" not in by_wire or b"name" not in by_wire:
+        return
+    ping, name = by_wire[b"ping"], by_wire[b"name"]
+    BIG = NATS_MAX + rng.randrange(1, 200000)
+    frames, outcomes, expect = [], {}, []
+
+    def add(m, key, spec, exp, hdrs=None, wire=None, args=None, kind="ok"):
+        opid = str(880000 + len(frames)).encode()
+        hs = [(b"_opid", opid), (b"_cid", b"cid-%d" % len(frames))] if hdrs is None else [(b"_opid", opid)] + hdrs
+        if spec is not None:
+            spec = dict(spec, method=m["go"], result=m["result_key"])
+            spec.setdefault("extra", [])
+            outcomes[key] = spec
+            hs.append((KEY, key.encode()))
+        body = envelope(wire or m["wire"], 1, 0) + (args if args is not None else pool[m["go"]][0])
+        frames.append({"kind": kind, "method": (wire or m["wire"]).decode()[:40], "opid": opid,
+                       "frame": hc.ref_marshal(hs) + body, "outcome": (spec or {}).get("k")})
+        expect.append(dict(exp, opid=opid))
+
+    sval = {"0": L.to_wire(sv.prog, ["string"], "abc")}
+    ival = {"0": L.to_wire(sv.prog, ["i32"], 7)}
+    bigh = lambda k: [{"k": k.hex(), "pat": b"h".hex(), "n": BIG}]  # noqa: E731
+    add(name, "nb1", {"k": "ret", "value": sval, "extra_rep": bigh(b"x-big")}, {"n": 1, "kind": 100, "hdr": "opid"})
+    add(name, "nb2", {"k": "ret", "value": sval, "pad": BIG, "extra": [[b"x-s".hex(), b"small".hex()]]},
+        {"n": 1, "kind": 100, "hdr": "full", "extra": {b"x-s": b"small"}})
+    add(ping, "nb3", {"k": "appexc", "type": 42, "msg": b"no".hex(), "extra_rep": bigh(b"x-big")},
+        {"n": 1, "kind": 42, "hdr": "opid", "msg": b"no"})
+    add(ping, "nb4", {"k": "other", "msg": b"E".hex(), "msg_rep": {"k": "", "pat": b"e".hex(), "n": BIG}}, {"n": 0})
+    add(ping, None, None, {"n": 1, "kind": 1, "hdr": "opid"}, hdrs=[(b"_cid", b"c" * BIG)], wire=b"nosuch", kind="unknown")
+    add(ping, "nb6", {"k": "ret", "value": ival}, {"n": 1, "kind": 7, "hdr": "opid"}, hdrs=[(b"_cid", b"c" * BIG)],
+        args=b"\x0b\x00\x01\x7f\xff\xff\xff", kind="badargs")
+    add(ping, "nb7", {"k": "ret", "value": ival, "extra_rep": bigh(b"x-big")}, {"n": 1, "kind": 100, "hdr": "opid"})
+    if thorough:
+        add(name, "nb8", {"k": "other", "msg": b"oops".hex(), "extra_rep": bigh(b"x-big")},
+            {"n": 1, "kind": 6, "hdr": "opid", "msg": b"Internal error processing name: oops"})
+        add(ping, None, None, {"n": 0}, wire=b"u" * (NATS_MAX // 2), kind="unknown")
+    # a reply that fits to the byte, and one byte more: calibrated on an unbounded direct run
+    P0 = 1000
+    cal_frames, cal_outcomes = [], {}
+    hs = [(b"_opid", b"1"), (b"_cid", b"cid-fit"), (KEY, b"cal")]
+    cal_outcomes["cal"] = {"k": "ret", "value": sval, "pad": P0, "method": name["go"], "result": name["result_key"], "extra": []}
+    cal_frames.append({"kind": "ok", "method": "name", "frame": hc.ref_marshal(hs) + envelope(b"name", 1, 0) + pool[name["go"]][0]})
+    rc = run_mode_b(sv, "bounded", cal_frames, cal_outcomes, [0])
+    if rc.get("code") == 0 and rc["obs"][0].get("written"):
+        N0 = len(bytes.fromhex(rc["obs"][0]["written"])) + 4
+        # the op ids of the real frames are 6 digits, the calibration's 1; the keys 3 characters both
+        fitpad = P0 + (NATS_MAX - N0) - 5
+        add(name, "nf1", {"k": "ret", "value": sval, "pad": fitpad}, {"n": 1, "type": 2, "size": NATS_MAX},
+            hdrs=[(b"_cid", b"cid-fit")])
+        add(name, "nf2", {"k": "ret", "value": sval, "pad": fitpad + 1}, {"n": 1, "kind": 100, "hdr": "full"},
+            hdrs=[(b"_cid", b"cid-fit")])
+    r = run_mode_b(sv, "nats", frames, outcomes, [])
+    if r.get("code") != 0:
+        ctx.violation("C14 (nats, 1 MiB): the run crashed or hung: %s" % (r.get("panic") or r.get("err")),
+                      replay_of(sv, [dict(f, frame=f["frame"][:4096]) for f in frames], {}, "nats", None, str(r)[:600]),
+                      signature=None)
+        return
+    calls_by_key = {}
+    for c in r["calls"]:
+        calls_by_key.setdefault(c["key"], c)
+    otoks = outcome_toks_b(sv, outcomes, calls_by_key)
+    for i, (fr, exp) in enumerate(zip(frames, expect)):
+        o = r["obs"][i]
+        got = [bytes.fromhex(x) for x in o["replies"]]
+        st.evals += 1
+
+        def bad(what):
+            rep = {"service": sv.key, "mode": "nats", "idl": L.render(sv.prog), "failing_frame_index": i,
+                   "failing_kind": fr["kind"], "method": fr["method"],
+                   "failing_frame_bytes": len(fr["frame"]), "failing_frame_head": fr["frame"][:300].hex(),
+                   "outcome": {k: (v if k not in ("value",) else "...") for k, v in (outcomes.get(parse_request(fr["frame"])["key"].decode())
+                                                                                    if parse_request(fr["frame"]) and parse_request(fr["frame"])["key"] else {}).items()},
+                   "replies": [g[:300].hex() for g in got], "reply_sizes": [len(g) for g in got]}
+            ctx.violation("C14 (nats, 1 MiB buffer): %s" % what, rep, signature={"mode": "nats-bounded", "kind": fr["kind"]})
+
+        if o.get("errtext"):
+            bad("reply message malformed: " + o["errtext"])
+        if len(got) != exp["n"]:
+            bad("%d replies to a request that must get %s" % (len(got), "exactly one" if exp["n"] else "none (no answer fits 1 MiB)"))
+        for g in got:
+            pr = parse_reply(g)
+            if isinstance(pr, str):
+                bad(pr)
+                continue
+            if pr["headers"].get(b"_opid") != exp["opid"]:
+                bad("reply carries op id %r, the request's is %r" % (pr["headers"].get(b"_opid"), exp["opid"]))
+            if len(g) + 4 > NATS_MAX:
+                bad("a reply of %d bytes went out" % (len(g) + 4))
+            if exp.get("type") == 2:
+                if pr["type"] != 2:
+                    bad("message type %d for a reply that fits to the byte" % pr["type"])
+                elif len(g) + 4 != exp["size"]:
+                    bad("calibration: the fitting reply has %d bytes, expected %d" % (len(g) + 4, exp["size"]))
+                continue
+            if pr["type"] != 3:
+                bad("message type %d, expected an EXCEPTION" % pr["type"])
+                continue
+            ex = parse_app_exception(pr["body"])
+            if ex is None:
+                bad("EXCEPTION body is not a well-formed TApplicationException")
+                continue
+            if ex[1] != exp["kind"]:
+                bad("exception type %d, expected %d" % (ex[1], exp["kind"]))
+            if "msg" in exp and ex[0] != exp["msg"]:
+                bad("exception message %r, expected %r" % (ex[0][:80], exp["msg"]))
+            keys = set(pr["headers"])
+            if exp["hdr"] == "opid" and keys != {b"_opid"}:
+                bad("headers %r, expected the op id alone" % sorted(keys))
+            if exp["hdr"] == "full":
+                if b"_cid" not in keys:
+                    bad("headers %r, expected all response headers" % sorted(keys))
+                for k, v in exp.get("extra", {}).items():
+                    if pr["headers"].get(k) != v:
+                        bad("response header %r missing from the exception" % k)
+        st.c["bounded/nats_%s" % ("none" if not got else "reply" if exp.get("type") == 2 else "exc_" + exp.get("hdr", "?"))] += 1
+        st.distinct.add((sv.key, fr["kind"], fr.get("outcome"), fr["method"], "nats-1MiB", len(got), exp.get("kind"), exp.get("hdr")))
+        out = got[0] if got else b""
+        st.bjudge_cases.append(bounded_case(1, NATS_MAX, mtoks, otoks, default_toks, fr["frame"], etext_of(got), [],
+                                            0, out, []))
+        st.bjudge_meta.append((sv, "nats", dict(fr, frame=fr["frame"][:2048]), {}, NATS_MAX, {"replies": [g[:200].hex() for g in got]}))
+    if len(st.bsamples) < 5:
+        st.bsamples.append({"service": sv.key, "mode": "nats", "response_header_bytes": BIG,
+                            "reply_sizes": [[len(bytes.fromhex(x)) for x in o["replies"]] for o in r["obs"]]})
+
+
+# ------------------------------------------------------------------------------------------------
 
 def run(ctx, br):
     quick = ctx.tier == "quick"
@@ -797,7 +1620,9 @@ def run(ctx, br):
                 svcs = svcs[:2]
             for fn, s in svcs:
                 sv = Svc(prog, lb, fn, s)
-                run_service(ctx, sv, nf, st, nb)
+                run_service(ctx, sv, nf, st, nb,
+                            bounded={"nframes": (10 if what == "fixed" else 6) if quick else (24 if what == "fixed" else 12),
+                                     "nrand": 4 if quick else 10, "nats": what == "fixed", "thorough": not quick})
                 st.c["services"] += 1
             nprog += 1
         finally:
@@ -825,8 +1650,30 @@ def run(ctx, br):
             for b, name in BRANCHES.items():
                 if v & b:
                     branch_hits["%s/%s" % (mode, name)] += 1
+    # ---- correspondence over bounded outputs: Model/ProcessorBounded.v replays every observation
+    bverd = vlib.run_judge(ctx.rundir, "JProcessorBounded", "judge", st.bjudge_cases, shard=900000, name="jb") \
+        if st.bjudge_cases else []
+    bmism = 0
+    bhits = collections.Counter()
+    for meta, v in zip(st.bjudge_meta, bverd):
+        sv, mode, fr, outcomes, lim, o = meta
+        if v < 0:
+            bmism += 1
+            rep = replay_of(sv, [fr], outcomes, mode, 0, o)
+            rep["limit"] = lim
+            rep["no_failing_input_found"] = True
+            rep["broken"] = ("correspondence JProcessorBounded.judge: Model/ProcessorBounded.v (process_b / nats_frame_b / "
+                             "http_frame_b: SendReply, trapError, sendError, writeException over a bounded output) does not "
+                             "reproduce what the implementation did with this frame and limit")
+            ctx.violation("C14 correspondence (%s, bounded output, limit %d): model and implementation disagree" % (mode, lim),
+                          rep, signature={"mode": mode + "-bounded", "judge": True})
+        else:
+            validated += 1
+            bhits["%s/%s/%d rejected writes/%s" % (mode, BPLAN.get(v // 100, "?"), (v % 100) // 10,
+                                                   {0: "answer left", 1: "nothing left", 5: "413"}.get(v % 10, "?"))] += 1
     ctx.assumptions += [
-        "replies fit the output buffer (size limits are C12's); handlers do not panic and do not block",
+        "handlers do not panic and do not block; over a bounded output the binary protocol is modelled write by write "
+        "(compact / JSON are not)",
         "texts of Go errors (args.Read error, result.Write error) are inputs of the model, taken from the observed reply",
         "compact and JSON protocols are not modelled (the envelope and TApplicationException codecs are Apache Thrift's)",
         "a frame whose headers or envelope cannot be decoded ends the FSimpleServer connection it arrived on (kept behaviour)",
@@ -838,12 +1685,20 @@ def run(ctx, br):
                 "inheritance): known/unknown method x well-formed/mutated arguments x handler outcome (value, declared exception, "
                 "TApplicationException, other error, unwritable result, default) x header/envelope variants, run through Process "
                 "directly (transport with and without Reset), 2-8 goroutines on one shared output, FSimpleServer connections, "
-                "FNatsServer (1 and 3 workers), HTTP handler; non-trivial = distinct (service, frame kind, outcome, method, mode, replies)",
+                "FNatsServer (1 and 3 workers), HTTP handler; bounded outputs: Process over NewTMemoryOutputBuffer(limit) for limits "
+                "1, 3, 4, 5, one byte around the reply / the exception with all headers / the exception under the op id alone, "
+                "and random ones, FNatsServer with results / response headers / correlation ids / error texts above 1 MiB and a "
+                "reply of exactly 1 MiB, HTTP handler with x-frugal-payload-limit around the payload size; "
+                "non-trivial = distinct (service, frame kind, outcome, method, mode, replies | rejected writes, anything left)",
         "programs": nprog,
         "traces_validated_against_impl": validated,
         "judge_cases": len(st.judge_cases),
         "judge_mismatches": mism,
         "model_branch_hits": dict(sorted(branch_hits.items())),
+        "bounded_judge_cases": len(st.bjudge_cases),
+        "bounded_judge_mismatches": bmism,
+        "bounded_model_branch_hits": dict(sorted(bhits.items())),
+        "bounded_samples": st.bsamples,
         "input_histogram": dict(st.c),
         "samples": st.samples,
     }
